@@ -201,7 +201,7 @@ def _same(ctx, r1, r2, what):
         ctx.fail("spelling", "%s: result dtype %s vs %s" % (what, r1.dtype, r2.dtype))
 
 
-SKIP_NUMPY_SPELLING = {"full", "full_like", "choose", "flat", "iter", "getitem", "T", "ravel", "flatten", "reshape_method", "diagonal_method", "det", "linalg.det",
+SKIP_NUMPY_SPELLING = {"where1", "full", "full_like", "choose", "flat", "iter", "getitem", "T", "ravel", "flatten", "reshape_method", "diagonal_method", "det", "linalg.det",
                        "sum_method", "prod_method", "cumsum_method", "mean_method", "add.reduce", "multiply.reduce", "add.accumulate", "matmul_op"}
 
 
@@ -321,6 +321,24 @@ def body_spelling(ctx: H.BaseCtx):
                 ctx.fail("spelling", "%s raises %s: %s while numpoly.%s returns" % (label, type(e).__name__, str(e)[:60], key))
                 continue
             _same(ctx, r1, r2, label)
+    # the same object on both sides (identity must not short-cut anything)
+    for key in ("eq", "ne", "le", "add", "sub", "mul"):
+        op_, np_, npo_ = table[key]
+        try:
+            _same(ctx, npo_(a, a), op_(a, a), "operator %s with the same object on both sides" % key)
+            _same(ctx, npo_(a, a), np_(a, a), "numpy.%s with the same object on both sides" % np_.__name__)
+        except Exception as e:
+            ctx.unexpected_exception(e, key + " (same object)")
+    if not ctx.symbolic:
+        # native only: NaN coefficients (not representable symbolically) under every spelling of == / !=
+        q0 = numpoly.variable()
+        pn = numpoly.polynomial([numpy.nan * q0 + 1, 2.0 * q0, 3.0])
+        for key in ("eq", "ne"):
+            op_, np_, npo_ = table[key]
+            ref = numpy.asarray(npo_(pn, pn.copy())).tolist()
+            for label, val in (("operator", op_(pn, pn)), ("numpy", np_(pn, pn)), ("numpoly", npo_(pn, pn))):
+                if numpy.asarray(val).tolist() != ref:
+                    ctx.fail("spelling", "%s %s on a polynomial with a NaN coefficient (same object) gives %s, the function on a copy gives %s" % (label, key, numpy.asarray(val).tolist(), ref))
     # unary
     for key in case.get("unops", []):
         np_ = getattr(numpy, key)
